@@ -31,7 +31,39 @@ def budget(tier):
 
 
 @st.composite
+def _big_case(draw, tier):
+    """6-10 atoms (up to 1024 worlds), 8-20 literal conditionals, some weak material: deeper
+    partitions than the small family reaches"""
+    n = draw(st.integers(6, 9 if tier == "quick" else 10))
+    atoms = [f"p{i}" for i in range(n)]
+    rnd = gen.rng(draw(st.integers(0, 2**32)))
+    conds = []
+    for _ in range(rnd.randint(8, 20)):
+        conds.append((gen.r_literal(rnd, atoms), gen.r_conj(rnd, atoms, rnd.randint(1, 3))))
+    mode = draw(st.integers(0, 3))
+    if mode in (0, 3):
+        # an exception chain of drawn length gives that many layers
+        k = rnd.randint(3, min(6, n - 1))
+        y, xs, cur = fm.V(atoms[0]), [fm.V(a) for a in atoms[1:k + 1]], []
+        for i, x in enumerate(xs):
+            cur.append(x)
+            conds.append((y if i % 2 == 0 else fm.Not(y), fm.conj(cur)))
+    if mode == 0:
+        conds = gen.repair_strong(atoms, conds)
+    if mode in (1, 2):
+        for _ in range(rnd.randint(1, 2)):
+            phi = gen.r_conj(rnd, atoms, rnd.randint(1, 2))
+            conds.append(rnd.choice([(fm.F, phi), (gen.r_literal(rnd, atoms), fm.And(phi, fm.Not(phi)))]))
+    rnd.shuffle(conds)
+    facts = [[fm.to_json(gen.r_literal(rnd, atoms)), bool(rnd.getrandbits(1))] for _ in range(draw(st.integers(0, 2)))]
+    q = [(gen.r_literal(rnd, atoms), gen.r_conj(rnd, atoms, 2))]
+    return gen.mk_case(atoms, conds, q, facts=facts, big=True)
+
+
+@st.composite
 def _case(draw, tier):
+    if draw(st.integers(0, 5)) == 0:
+        return draw(_big_case(tier))
     atoms = draw(gen.atoms_st(1, 4 if tier == "quick" else 5))
     kind = draw(st.integers(0, 11))
     if kind == 0:
@@ -95,7 +127,9 @@ def run_case(case, ctx):
     if nontrivial:
         ctx.nt(repr(sig))
     if refp[False] is not None:
-        ctx.stratum(f"layers={min(len(refp[False]), 4)}")
+        ctx.stratum(f"layers={min(len(refp[False]), 6)}")
+    if case.get("big"):
+        ctx.stratum("family:6-10-atoms")
     if refp[True] is not None and refp[True][-1]:
         ctx.stratum("infinity-layer:nonempty")
     btxt = [f"{k}:{fm.cond_text(B, A)}" for k, B, A in base]
@@ -201,6 +235,6 @@ def shrink(case):
 
 
 def required_strata(tier):
-    return ["base:empty", "base:strong", "base:weak-only", "base:rejected", "layers=2", "layers=3",
+    return ["family:6-10-atoms", "base:empty", "base:strong", "base:weak-only", "base:rejected", "layers=2", "layers=3", "layers=4",
             "infinity-layer:nonempty", "diagnostics:with-facts", "diagnostics:infinity-grew",
             "diagnostics:facts-unsat", "refusal-checked"]
